@@ -409,7 +409,8 @@ def raw_node(rng, depth):
         return ('leaf', ('NS', rng.choice(['', 'svg']), 'http://www.w3.org/2000/svg'))
     if r < 0.98:
         return ('leaf', ('ENS', rng.choice(['', 'svg'])))
-    return ('leaf', rng.choice([('SC',), ('EC',), ('XD', '1.0', None, -1)]))
+    # no START_CDATA: known finding C06-cdata-html (the HTML serializer writes such text unescaped)
+    return ('leaf', rng.choice([('EC',), ('XD', '1.0', None, -1)]))
 
 
 def flatten(node, out):
